@@ -16,10 +16,12 @@
 (***************************************************************************)
 EXTENDS Naturals, Sequences, TLC, Json
 
-CONSTANTS Keep          \* -k given
+CONSTANTS Keep,         \* -k given
+          Damaged       \* the input is damaged: a worker detects it during work() and the run ends in bailout()
 
 \* the calls of one operand, in order; "work" stands for all the reads and writes of work()
-Steps == <<"open_in", "cli", "open_out", "work", "fchown", "fchmod", "futimens", "close_out", "unlink_in", "sti", "close_in", "exit">>
+Steps == IF Damaged THEN <<"open_in", "cli", "open_out", "work", "unlink_out">>
+         ELSE <<"open_in", "cli", "open_out", "work", "fchown", "fchmod", "futimens", "close_out", "unlink_in", "sti", "close_in", "exit">>
 Faults == {"none", "fail", "sigint", "sigterm", "kill"}
 
 VARIABLES pc,        \* index into Steps of the call about to be made
@@ -66,7 +68,12 @@ Step ==
               IF sigp THEN \/ result' = "signal" /\ out' = "absent" /\ UNCHANGED <<pc, inp, blocked, pending, warned, plan>>
                            \/ Go(pc + 1) /\ pending' = FALSE /\ UNCHANGED <<inp, out, blocked, warned, result>>
               ELSE IF f = "fail" THEN Fatal
+              \* damaged input: a worker reports the data error and raises SIGUSR1; the main thread runs bailout()
+              ELSE IF Damaged THEN Go(pc + 1) /\ UNCHANGED <<inp, out, blocked, pending, warned, result>>
               ELSE Go(pc + 1) /\ UNCHANGED <<inp, out, blocked, pending, warned, result>>
+         [] s = "unlink_out" ->       \* cleanup(): remove the partial output; if that fails it stays, but the run still ends
+              /\ result' = "exit1" /\ out' = (IF f = "fail" THEN out ELSE "absent")
+              /\ UNCHANGED <<pc, inp, blocked, pending, warned, plan>>
          [] s \in {"fchown", "fchmod", "futimens"} ->
               Go(pc + 1) /\ warned' = (warned \/ f = "fail") /\ pending' = sigp /\ UNCHANGED <<inp, out, blocked, result>>
          [] s = "close_out" ->
@@ -89,13 +96,17 @@ Spec == Init /\ [][Step]_vars
 Terminal == result # "running"
 StateA == inp = "present" /\ out = "absent"
 StateB == out = "complete" /\ (Keep \/ inp = "gone" \/ plan = [at |-> 9, fault |-> "fail"])
+\* the one end state outside the dichotomy that no program can avoid: the removal of the partial output itself failed
+CannotRemove == Damaged /\ Steps[plan.at] = "unlink_out" /\ plan.fault = "fail"
 \* C16: a run that is interrupted or fails leaves the operand in state A or in state B
-Dichotomy == (Terminal /\ result # "killed") => (StateA \/ StateB)
+Dichotomy == (Terminal /\ result # "killed") => (StateA \/ StateB \/ (CannotRemove /\ inp = "present" /\ result = "exit1"))
 \* success is never reported with the operand in state A, nor failure with the input gone and no output
 StatusHonest == /\ (result \in {"exit0", "exit4"} /\ plan.at > 1 /\ ~(plan.at = 3 /\ plan.fault = "fail")) => StateB
-                /\ (result = "exit1" /\ ~(plan.at = 11)) => StateA
+                /\ (result = "exit1" /\ ~(plan.at = 11) /\ ~CannotRemove) => StateA
+                \* a damaged input never ends in success (unless the operand was skipped before it was read)
+                /\ (Damaged /\ ~(plan.fault = "fail" /\ plan.at \in {1, 3})) => result \notin {"exit0", "exit4"}
 \* after SIGKILL at any moment the input is intact unless a complete output exists
 KillSafe == result = "killed" => (inp = "present" \/ out = "complete")
-Export == Terminal => PrintT(<<"BEHAVIOUR", ToJson([keep |-> Keep, at |-> Steps[plan.at], fault |-> plan.fault,
+Export == Terminal => PrintT(<<"BEHAVIOUR", ToJson([keep |-> Keep, damaged |-> Damaged, at |-> Steps[plan.at], fault |-> plan.fault,
                                                      result |-> result, inp |-> inp, out |-> out])>>)
 =============================================================================
